@@ -13,7 +13,7 @@ assert r.returncode == 0, r.stdout
 out = []
 try:
     for p in props:
-        env = 'VERIF_HARNESS_TIMEOUT=6m VERIF_REPLAY_CAP=2'
+        env = 'VERIF_HARNESS_TIMEOUT=6m VERIF_REPLAY_CAP=0'
         r = sh('%s ./check %s %s' % (env, p, ' '.join(extra)), '/verif')
         viol = re.findall(r'^VIOLATION property=\S+ replay=\S+ obligation=(\S+)', r.stdout, re.M)
         und = re.findall(r'^UNDECIDED .*$', r.stdout, re.M)
